@@ -14,8 +14,10 @@
 (***************************************************************************)
 EXTENDS GetRecord, TLC, Json, IOUtils
 
-CONSTANTS Depth,        \* bound on the number of steps of a behaviour
-          MaxReplies,   \* bound on the number of FoundRecord events
+CONSTANTS Depth,        \* simulation: number of steps of a recorded behaviour
+          MaxReplies,   \* bound on the number of FoundRecord events while there is one caller
+          MaxReplies2,  \* ... once there is a second caller
+          MaxDup,       \* ... of those repeating an earlier reply (same peer, content, key) of the query
           MaxForeign,   \* ... of those carrying a record for another key
           MaxLate,      \* events delivered for a query that is already gone
           QuorumSet,    \* quorum settings callers use
@@ -36,7 +38,7 @@ Base(ev) == [ev |-> ev, s |-> st, g |-> g, g2 |-> 0, caller |-> 0, key |-> 0, qu
 Json1(x) == [ev |-> x.ev, caller |-> x.caller, key |-> x.key, quorum |-> x.quorum, target |-> x.target,
              q |-> x.q, p |-> x.p, c |-> x.c, k |-> x.k, att |-> x.att, dl |-> x.dl, pq |-> x.pq]
 
-Init == /\ st = Init0 /\ g = Ghost0 /\ uni \in Triples /\ cnt = [found |-> 0, foreign |-> 0, late |-> 0]
+Init == /\ st = Init0 /\ g = Ghost0 /\ uni \in Triples /\ cnt = [found |-> 0, dup |-> 0, foreign |-> 0, late |-> 0]
         /\ bad = {} /\ hist = <<>> /\ n = 0
 
 Step(x0, cnt2) ==
@@ -49,7 +51,7 @@ Step(x0, cnt2) ==
        /\ g' = g2
        /\ cnt' = cnt2
        /\ bad' = FalsifiedBy(x)
-       /\ n' = n + 1
+       /\ n' = IF Record THEN n + 1 ELSE n          \* exhaustive runs are bounded by the counters alone
        /\ hist' = IF Record THEN Append(hist, Json1(x)) ELSE hist
        /\ UNCHANGED uni
 
@@ -60,20 +62,23 @@ DoCall == LET cl == Cardinality(g.called) + 1 IN
                 /\ (cl = 1 => key = 1)
                 /\ Step([Base("Call") EXCEPT !.caller = cl, !.key = key, !.quorum = qm, !.target = tg], cnt)
 
-\* peers are interchangeable: a peer that has not answered yet is the lowest unused id (or "self" = NP)
+\* peers are interchangeable: a peer that has not answered yet is the lowest unused id
 UsedPeers == UNION {{r.p : r \in g.replies[q]} : q \in Query}
-NextPeers == UsedPeers \cup {NP} \cup (IF \E p \in Peer : p \notin UsedPeers
+NextPeers == UsedPeers \cup (IF \E p \in Peer : p \notin UsedPeers
                                         THEN {CHOOSE p \in Peer : p \notin UsedPeers /\ \A o \in Peer \ UsedPeers : p <= o}
                                         ELSE {})
 LateOk(q) == IsLive(st, q) \/ cnt.late < MaxLate
 LateInc(q) == IF IsLive(st, q) THEN 0 ELSE 1
-DoFound == /\ cnt.found < MaxReplies
+DoFound == /\ cnt.found < (IF Cardinality(g.called) > 1 THEN MaxReplies2 ELSE MaxReplies)
            /\ \E q \in 1..Len(st.qs), p \in NextPeers, c \in uni, k \in Key :
-                LET fk == IF k = st.qs[q].key THEN 0 ELSE 1 IN
+                LET fk == IF k = st.qs[q].key THEN 0 ELSE 1
+                    dp == IF [p |-> p, c |-> c, k |-> k] \in g.replies[q] THEN 1 ELSE 0 IN
                 /\ LateOk(q)
                 /\ cnt.foreign + fk <= MaxForeign
+                /\ cnt.dup + dp <= MaxDup
                 /\ Step([Base("Found") EXCEPT !.q = q, !.p = p, !.c = c, !.k = k],
-                        [found |-> cnt.found + 1, foreign |-> cnt.foreign + fk, late |-> cnt.late + LateInc(q)])
+                        [found |-> cnt.found + 1, dup |-> cnt.dup + dp, foreign |-> cnt.foreign + fk,
+                         late |-> cnt.late + LateInc(q)])
 Term(ev) == \E q \in 1..Len(st.qs) :
                 /\ LateOk(q)
                 /\ Step([Base(ev) EXCEPT !.q = q], [cnt EXCEPT !.late = @ + LateInc(q)])
@@ -88,7 +93,7 @@ SplitTargets(S) == IF Cardinality(S) = 2 THEN {0} \cup S ELSE {0}
 SplitStep(S, tg) == LET perms == SetToSeq(SetToSeqs(S)) IN
                     [Base("SplitCase") EXCEPT !.key = 1, !.target = tg, !.vs = S,
                          !.runs = [i \in 1..Len(perms) |-> [it |-> perms[i], o |-> ClientSplit(perms[i], 1)]]]
-DoSplit == /\ ~Record /\ n = 0
+DoSplit == /\ ~Record /\ n = 0 /\ g.called = {}
            /\ \E S \in SplitSets : \E tg \in SplitTargets(S) : bad' = FalsifiedBy(SplitStep(S, tg))
            /\ n' = Depth
            /\ UNCHANGED <<st, g, uni, cnt, hist>>
@@ -101,7 +106,7 @@ Answers == {A("Ok", 1, <<>>, ""), A("Ok", 6, <<>>, ""), A("Split", 0, <<1, 2>>, 
 RetryCases == {[ans |-> a, natt |-> m] : a \in UNION {[1..len -> Answers] : len \in 1..2}, m \in 1..2}
 RetryStep(rc) == LET r == ClientGet(rc.ans, rc.natt, 1, 1) IN
                  [Base("ClientRetry") EXCEPT !.key = 1, !.ans = rc.ans, !.natt = rc.natt, !.o = r.o, !.used = r.used]
-DoClientRetry == /\ ~Record /\ n = 0
+DoClientRetry == /\ ~Record /\ n = 0 /\ g.called = {}
                  /\ \E rc \in RetryCases : bad' = FalsifiedBy(RetryStep(rc))
                  /\ n' = Depth
                  /\ UNCHANGED <<st, g, uni, cnt, hist>>
